@@ -33,7 +33,7 @@ META = dict(
         "values are covered on the stated finite lattice only (real-valued quantifier): concentrations and constants between lattice points are outside the bound",
         "scipy.optimize (root/brentq), pyneqsys and numpy are the trusted environment; their answers are observed through chempy",
         "tolerances fixed in the check: 1e-6 relative on totals and Q/K (100 x pyneqsys' default tol 1e-8); brentq agreement 1e-6 relative + 1e-11 absolute (5 x brentq's xtol)",
-        "systems with more than three equilibria / more than 9 species are outside the bound",
+        "systems with more than three (thorough: four) equilibria / more than 9 species are outside the bound",
     ],
     design_ref="DESIGN.md §3 C08",
     hashseed_sensitive=False,
@@ -56,19 +56,22 @@ KSP = 4.0
 
 def systems(tier):
     """(tags, lattice, kshift-mode) in order simplest first"""
+    q = tier == "quick"
     out = [(("water",), L5, "none")]
-    singles = ["nh4", "hac", "cunh3", "cr2o7"] + (["agnh3", "h2co3", "hco3"] if tier == "thorough" else [])
-    out += [((t,), L3 if tier == "quick" else L4, "full") for t in singles]
+    singles = ["nh4", "hac", "cunh3", "cr2o7"] + ([] if q else ["agnh3", "h2co3", "hco3"])
+    out += [((t,), L3 if q else L5, "full") for t in singles]
     pairs = ["nh4", "hac", "h2co3", "hco3", "cr2o7"]
-    out += [(("water", t), L3, "full") for t in pairs]
-    out += [(("water", "cunh3"), L2 if tier == "quick" else L3, "full")]
-    if tier == "thorough":
+    out += [(("water", t), L3 if q else L4, "full") for t in pairs]
+    out += [(("water", "cunh3"), L2 if q else L3, "full")]
+    if not q:
         out += [(("water", "agnh3"), L3, "full")]
     triples = [("water", "h2co3", "hco3"), ("water", "nh4", "cunh3"), ("water", "nh4", "hac")]
-    if tier == "thorough":
+    if not q:
         triples += [("water", "nh4", "agnh3"), ("water", "hac", "cr2o7"), ("water", "nh4", "h2co3"), ("water", "cunh3", "agnh3"),
                     ("water", "hco3", "cr2o7"), ("water", "hac", "h2co3")]
-    out += [(t, L2, "one" if tier == "quick" else "full") for t in triples]
+    out += [(t, L2, "one" if q else "full") for t in triples]
+    if not q:
+        out += [(t, L2, "one") for t in (("water", "nh4", "h2co3", "hco3"), ("water", "nh4", "cunh3", "hac"))]
     return out
 
 
@@ -92,7 +95,7 @@ def bounds(tier):
         systems=[dict(system=list(t), lattice=l, K_shifts=len(kshifts(t, m))) for t, l, m in systems(tier)],
         H2O=H2O, root_configs=["%s rref_preserv=%s" % ("+".join(c), rp) for c, rp in ROOT_CONFIGS], solve="default chain, varied grid",
         brentq="single-equilibrium systems", precipitation=dict(lattice=PRECIP_LATTICE, Ksp=KSP, chains=["+".join(c) for c in CHAINS],
-                                                               options=["default", "rref_preserv=True, tol=1e-12"]),
+                                                               options=["default", "rref_preserv=True, tol=1e-12"], solve="default chain, single points"),
         rtol=RTOL, solid_absent=SOLID_ABSENT, liveness="per chunk, default chains, >= 19/20",
     )
 
@@ -245,11 +248,24 @@ def _record(res, run, what_sys, case, claim, kinds, mags, x):
                 res.extra[kk] = max(res.extra.get(kk, 0.0), round(mags[k] * 1e12, 3))
         return True
     res.outcomes["%s:success+sane:NOT-GENUINE(%s)" % (run, "+".join(kinds))] += 1
-    res.violation("C08|%s|success+sane|%s" % (run, "+".join(kinds)),
+    res.violation(_key(run, kinds),
                   "%s claims success and a sane result for %s but the returned concentrations %s violate: %s (%s)"
                   % (run, what_sys, [float("%.6g" % v) for v in x], ", ".join(kinds), ", ".join("%s=%.3g" % kv for kv in sorted(mags.items()))),
                   case, dict(x=[float(v) for v in x], kinds=kinds, mags=mags), "non-negative, same element/charge totals (rel 1e-6), Q=K (rel 1e-6)")
     return False
+
+
+def _key(run, kinds):
+    """violation class: entry point and chain (not the rref option), the insanity flags, and one severity word for the
+    defining equations: 'violated' (rel. error > 1e-3) or 'off-by<1e-3' (1e-6 < rel. error <= 1e-3)"""
+    entry, chain = run.split("|")[:2]
+    flags = [k for k in kinds if k in ("negative", "exceeds-element-total", "non-finite")]
+    rest = [k for k in kinds if k not in flags]
+    if any(not k.endswith("(<1e-3)") for k in rest):
+        flags.append("defining-equations-violated")
+    elif rest:
+        flags.append("defining-equations-off-by<1e-3")
+    return "C08|%s|%s|success+sane|%s" % (entry, chain, "+".join(flags))
 
 
 def lattice_points(names, latt):
@@ -395,6 +411,8 @@ def run_chunk(chunk, tier):
                 for oname, extra in (("default", None), ("rrefp+tol", dict(rref_preserv=True, tol=1e-12))):
                     res.transitions += 1
                     claimed |= precip_run(res, es, names, init, chain, oname, extra)
+            res.transitions += 1
+            claimed |= precip_run(res, es, names, init, ("Log", "Lin"), "default", None, entry="solve")
             if claimed:
                 res.nontrivial += 1
         res.sample(dict(system="NaCl(s) = Na+ + Cl-", Ksp=KSP, first=a, cases=res.states), limit=1)
@@ -403,9 +421,18 @@ def run_chunk(chunk, tier):
     return res
 
 
-def precip_run(res, es, names, init, chain, oname, extra):
-    run = "precip-root|%s|%s" % ("+".join(chain), oname)
-    x, success, sane, exc = run_root(es, names, init, chain, False, extra)
+def precip_run(res, es, names, init, chain, oname, extra, entry="root"):
+    import numpy as np
+
+    run = "precip-%s|%s|%s" % (entry, "+".join(chain), oname)
+    if entry == "root":
+        x, success, sane, exc = run_root(es, names, init, chain, False, extra)
+    else:  # EqSystem.solve: fixed default chain and options, a single point
+        try:
+            r = es.solve(dict(zip(names, init)))
+            x, success, sane, exc = np.asarray(r.conc, dtype=float).ravel(), bool(r.success), bool(r.sane), None
+        except Exception as e:
+            x, success, sane, exc = None, False, False, "EXC %s" % type(e).__name__
     claim = _claim(success, sane, exc)
     kinds, mags = judge_precip(init, x) if claim == "success+sane" else ([], {})
     res.evaluations += 1
@@ -417,10 +444,10 @@ def precip_run(res, es, names, init, chain, oname, extra):
         res.outcomes["%s:success+sane:genuine:%s" % (run, state)] += 1
         return True
     res.outcomes["%s:success+sane:NOT-GENUINE(%s)" % (run, "+".join(kinds))] += 1
-    res.violation("C08|%s|success+sane|%s" % (run, "+".join(kinds)),
+    res.violation(_key(run, kinds),
                   "%s claims success and a sane result for NaCl(s) with init=%s (Ksp=%g) but returns %s: %s (%s)"
                   % (run, dict(zip(names, init)), KSP, [float("%.6g" % v) for v in x], ", ".join(kinds), ", ".join("%s=%.3g" % kv for kv in sorted(mags.items()))),
-                  dict(layer="P", init=list(init), chain=list(chain), options=oname), dict(x=[float(v) for v in x], kinds=kinds, mags=mags),
+                  dict(layer="P", init=list(init), chain=list(chain), options=oname, entry=entry), dict(x=[float(v) for v in x], kinds=kinds, mags=mags),
                   "x>=0, Na/Cl/charge totals kept, (solid present and IP=Ksp) or (solid absent and IP<=Ksp)")
     return True
 
@@ -435,7 +462,7 @@ def replay(case):
     elif case.get("layer") == "P":
         es, names = build_precip()
         extra = None if case["options"] == "default" else dict(rref_preserv=True, tol=1e-12)
-        precip_run(res, es, names, case["init"], tuple(case["chain"]), case["options"], extra)
+        precip_run(res, es, names, case["init"], tuple(case["chain"]), case["options"], extra, entry=case.get("entry", "root"))
         vs = res.violations
     else:
         tags, shifts, init = tuple(case["tags"]), tuple(case["shifts"]), case["init"]
